@@ -34,7 +34,7 @@ fn gen_strings(rng: &mut Rng, n: usize, alpha: &[char]) -> Vec<String> {
     // a fixed corpus first: witnesses of past findings and grammar corner cases
     for s in ["", "C", "CC", "C(C)C", "C.C", "C1CC1", "C%12CC%12", "[13CH4]", "[C@@H](F)(Cl)Br", "[*@TB0]", "[*@TBx", "[G]", "[C+10]", "[C-10]", "[Cs]", "[C+5]", "[*@TB20]", "[*@OH3]", "[*@OH14]",
               "C11", "C1C1", "C12CC12", "C[Pt@SP1H](C)(C)C", "C1C[C@@]1(F)Cl", "C(", "C(C", "C()", "(C)", "C=", "C=1", "C.", "C..C", "C(.C)C", "C(=C)(#N)C", "C%1", "C%", "[", "[C", "[C:", "[C:x]", "[1000U]", "[*:1000]",
-              "C/C=C\\C", "F/C=C/F", "C1=CC=CC=C1", "c1ccccc1", "[nH]1cccc1", "C\u{e9}C", "\u{e9}", "[\u{e9}]", "\u{feff}CC", "\u{feff}C(", "\u{feff}", "C\u{feff}", " CC", "CC ", "\u{a0}C", "\u{200b}C", "\tC", "C\n", "[\u{b2}H]", "[C:\u{663}]", "[\u{ff11}\u{ff13}C]", "C[N:\u{bd}]", "[C:1\u{ff12}]", "C%\u{663}1", "C\u{b2}", "[C@TB\u{b2}]", "[C+\u{663}]", "[CH\u{b2}]", "C(.O)N", "C(.O)1CC1", "CC(C(.[Na+])O)=O", "C1.[C@H]1(F)Cl", "C1.[C@@H]1(F)Cl", "C1.[C@]1(F)(Cl)Br", "C(.[C@H]1(F)Cl)1", "C12.[C@H]1(F)2", "C1C.[C@H]1(F)Cl", "[C@H]1(F)(Cl).C1", "C1.C.[C@@H]1(F)Cl", "[C@H](F)(Cl)1.C1", "C1[C@H]1(F)Cl", "N1OC[C@H0]1(F)Cl", "N1OC[C@@H0]1(F)Cl", "C1CC[C@H0]1(F)Cl", "N[13C@@H](C)C(=O)O", "[13C@@H]", "[13C@H]", "[18F-]", "[13CH3:1]", "[2H+]", "[15NH2+]", "[131I-:5]", "[999U@TB20H9-15:999]", "[0C@OH30H0+15:0]", "[001C]", "C%99CC%99", "C%10CC%101", "C%011CC%01", "C%01CC1", "C9CC9", "C0CC0",
+              "C/C=C\\C", "F/C=C/F", "C1=CC=CC=C1", "c1ccccc1", "[nH]1cccc1", "C\u{e9}C", "\u{e9}", "[\u{e9}]", "\u{feff}CC", "\u{feff}C(", "\u{feff}", "C\u{feff}", " CC", "CC ", "\u{a0}C", "\u{200b}C", "\tC", "C\n", "[\u{b2}H]", "[C:\u{663}]", "[\u{ff11}\u{ff13}C]", "C[N:\u{bd}]", "[C:1\u{ff12}]", "C%\u{663}1", "C\u{b2}", "[C@TB\u{b2}]", "[C+\u{663}]", "[CH\u{b2}]", "C1CC1.C1C2CC12", "C1C2CC12.C1CC1.C1C2CC12", "C1CC1.C1C2C3CC123", "C1CC1.C.C1C2CC12.C1C2C3CC123", "C(CC1)1", "C(CC=1)%01C", "C(C(C).O)N", "C(C(C).O)=N", "C(C(C)1.OCC1)2CC2", "C(C1CC1)1CC1", "C(CC1CC1)1CCC1", "C(C1.C1)1CC1", "N(C=%07CCC7)(O)7CCC=7", "CC1CCC21CC2", "C/[C@H](F)Cl", "C\\[C@@H](F)Cl", "C(.O)N", "C(.O)1CC1", "CC(C(.[Na+])O)=O", "C1.[C@H]1(F)Cl", "C1.[C@@H]1(F)Cl", "C1.[C@]1(F)(Cl)Br", "C(.[C@H]1(F)Cl)1", "C12.[C@H]1(F)2", "C1C.[C@H]1(F)Cl", "[C@H]1(F)(Cl).C1", "C1.C.[C@@H]1(F)Cl", "[C@H](F)(Cl)1.C1", "C1[C@H]1(F)Cl", "N1OC[C@H0]1(F)Cl", "N1OC[C@@H0]1(F)Cl", "C1CC[C@H0]1(F)Cl", "N[13C@@H](C)C(=O)O", "[13C@@H]", "[13C@H]", "[18F-]", "[13CH3:1]", "[2H+]", "[15NH2+]", "[131I-:5]", "[999U@TB20H9-15:999]", "[0C@OH30H0+15:0]", "[001C]", "C%99CC%99", "C%10CC%101", "C%011CC%01", "C%01CC1", "C9CC9", "C0CC0",
               "C(C(C(C(C(C(C(C(C(C(C(C))))))))))))", "C((C))", "C(C)(C)(C)(C)(C)(C)", "[C@TB1](F)(Cl)(Br)(I)C", "[C@@OH30](F)(Cl)(Br)(I)(C)N", "C1CC2CC3CC4CC5CC6CC7CC8CC9CC%10CC%11CC1C2C3C4C5C6C7C8C9C%10C%11",
               "F/C=C/C=C\\C", "C/1=C/CCCC1", "[nH]1cccc1", "c1ccccc1-c2ccccc2", "C=1CCCCC=1", "C=1CCCCC1", "C1CCCCC=1", "C-1CCCCC=1", "C/1CCCCC\\1", "C/1CCCCC/1", "C(C(C(C)))C", "C1.C1", "C1(C)", "*", "[*]", "[*H]", "[HH1]", "Cl", "Br", "B", "Bx", "At", "Ts", "Tx", "A"] { v.push(s.to_string()) }
     // hubs: ring digits written after 15..40 and after 254..257 branches, closures onto and from the hub in both orientations
@@ -225,7 +225,10 @@ fn main() {
                 cases.push(walk_case(&[star((0..k).map(|_| (e(), 1)).collect()), star(vec![])])); bump("corpus-many-duplicates") }
             while cases.len() < count {
                 let big = count > 5000;
-                let g = match rng.below(15) { 0..=4 => { bump("wf"); gen_wf_graph(&mut rng, 9) } 5 => { bump("wf-large"); gen_wf_graph(&mut rng, if big { 48 } else { 20 }) }
+                let g = match rng.below(18) { 15 => { bump("several ring-bearing components"); gen_components(&mut rng) }
+                    16 => { bump("directed cycle of one-sided bonds"); gen_directed_cycle(&mut rng) }
+                    17 => { let mut g = if rng.chance(1, 2) { gen_wf_graph(&mut rng, 8) } else { gen_components(&mut rng) }; let k = 2 + rng.below(3); for _ in 0..k { mutate_graph(&mut rng, &mut g); } bump("several defects at once"); g }
+                    0..=4 => { bump("wf"); gen_wf_graph(&mut rng, 9) } 5 => { bump("wf-large"); gen_wf_graph(&mut rng, if big { 48 } else { 20 }) }
                     10 => { bump("ladder"); let k = if big && rng.chance(1, 8) { 20 + rng.below(85) } else { 2 + rng.below(14) }; gen_ladder(&mut rng, k) }
                     11 => { bump("hub"); let d = if rng.chance(1, 6) { 20 + rng.below(50) } else { 3 + rng.below(6) }; gen_hub(&mut rng, d) }
                     12 => { let k = 2 + rng.below(6); let mut g = gen_ladder(&mut rng, k); let m = mutate_graph(&mut rng, &mut g); bump(&format!("ladder-mutant-{}", m)); g }
@@ -260,6 +263,16 @@ fn main() {
             cases.push(pool_case(&(0..110).map(|i| (i, i + 1000)).collect::<Vec<_>>()));
             // many sequential rings
             cases.push(pool_case(&(0..300).flat_map(|i| vec![(i, i + 1), (i + 1, i)]).collect::<Vec<_>>()));
+            // two different atom pairs open at the same time must never be taken for one: every pair of distinct unordered pairs over ids 0..48
+            // (635 628 of them, both closing orders) is run on the implementation; offenders are forwarded to the Coq oracle below
+            { let ids = 48usize; let mut pairs = vec![]; for a in 0..ids { for b in a + 1..ids { pairs.push((a, b)) } }
+              let num = |r: &Rnum| rnum_number(r); let (mut swept, mut bad) = (0usize, 0usize);
+              for i in 0..pairs.len() { for j in i + 1..pairs.len() { let (p, q) = (pairs[i], pairs[j]); swept += 1;
+                  let ok = guarded(|| { let mut pool = JoinPool::new();
+                      let v = [num(&pool.hit(p.0, p.1)), num(&pool.hit(q.1, q.0)), num(&pool.hit(p.1, p.0)), num(&pool.hit(q.0, q.1)), num(&pool.hit(q.0, q.1)), num(&pool.hit(p.0, p.1)), num(&pool.hit(q.1, q.0)), num(&pool.hit(p.1, p.0))];
+                      v == [1, 2, 1, 2, 1, 2, 1, 2] }).unwrap_or(false);
+                  if !ok { bad += 1; if bad <= 12 { cases.push(pool_case(&[p, (q.1, q.0), (p.1, p.0), q, q, p, (q.1, q.0), (p.1, p.0)])) } } } }
+              dist.insert("pairs of atom pairs swept".into(), swept); dist.insert("pairs of atom pairs mixed up".into(), bad); }
             // atom ids beyond 16 and 32 bits: the pair key must not truncate or pack them
             cases.push(pool_case(&[(5, 1), (65541, 0), (1, 5), (0, 65541)]));
             cases.push(pool_case(&[(0, 65538), (2, 65536), (65538, 0), (65536, 2)]));
